@@ -275,21 +275,23 @@ namespace {
 
 #ifdef VF_E1
 const vf::Prop kProps[] = {
-    {"C12", "e1", genC12e, runC12, vf::kE1, 2500, 60000, ">=2 chunks ran on >=2 threads, or the range touches a limit of its index type"},
-    {"C13", "e1", genC13e, runC13, vf::kE1, 2000, 60000, "start or size is not a multiple of the granularity and >=2 invocations happened"},
-    {"C14", "e1", genC14e, runC14, vf::kE1, 3000, 80000, "two body invocations overlapped in time (exclusivity was exercised)"},
-    {"C48", "e1", genC48e, runC48, vf::kE1, 3000, 80000, "observed concurrency >= 2, or maxThreads <= 1"},
-    {"C15", "e1", genC15e, runC15, vf::kE1, 2000, 60000, "n>=2 with >=2 chunks on >=2 threads, or zero-thread pool, or maxThreads in {0,1}"},
-    {"C16", "e1", genC16e, runC16, vf::kE1, 2000, 50000, "recursion depth >= 3 and >=2 executing threads"},
+    {"C12", "e1", genC12e, runC12, vf::kE1, 1200, 60000, ">=2 chunks ran on >=2 threads, or the range touches a limit of its index type"},
+    {"C13", "e1", genC13e, runC13, vf::kE1, 1000, 60000, "start or size is not a multiple of the granularity and >=2 invocations happened"},
+    {"C14", "e1", genC14e, runC14, vf::kE1, 1500, 80000, "two body invocations overlapped in time (exclusivity was exercised)"},
+    {"C48", "e1", genC48e, runC48, vf::kE1, 1500, 80000, "observed concurrency >= 2, or maxThreads <= 1"},
+    {"C48", "fe-e1", genC48fee, runC48fe, vf::kE1, 800, 40000, "for_each: observed concurrency >= 2, or maxThreads <= 1"},
+    {"C15", "e1", genC15e, runC15, vf::kE1, 1200, 60000, "n>=2 with >=2 chunks on >=2 threads, or zero-thread pool, or maxThreads in {0,1}"},
+    {"C16", "e1", genC16e, runC16, vf::kE1, 1500, 50000, "recursion depth >= 3 and >=2 executing threads"},
 };
 #else
 const vf::Prop kProps[] = {
-    {"C12", "native", genC12n, runC12, vf::kBatch, 60000, 3000000, ">=2 chunks ran on >=2 threads, or the range touches a limit of its index type"},
+    {"C12", "native", genC12n, runC12, vf::kBatch, 30000, 3000000, ">=2 chunks ran on >=2 threads, or the range touches a limit of its index type"},
     {"C12", "exh8", genC12x, runC12x, vf::kBatch, 65792, 65792, "every case: one (start,end) pair of an 8-bit index type, enumerated exhaustively"},
-    {"C13", "native", genC13n, runC13, vf::kBatch, 60000, 3000000, "start or size is not a multiple of the granularity and >=2 invocations happened"},
-    {"C14", "native", genC14n, runC14, vf::kBatch, 30000, 1000000, "two body invocations overlapped in time (exclusivity was exercised)"},
-    {"C48", "native", genC48n, runC48, vf::kBatch, 30000, 1000000, "observed concurrency >= 2, or maxThreads <= 1"},
-    {"C15", "native", genC15n, runC15, vf::kBatch, 60000, 2000000, "n>=2 with >=2 chunks on >=2 threads, or zero-thread pool, or maxThreads in {0,1}"},
+    {"C13", "native", genC13n, runC13, vf::kBatch, 30000, 3000000, "start or size is not a multiple of the granularity and >=2 invocations happened"},
+    {"C14", "native", genC14n, runC14, vf::kBatch, 20000, 1000000, "two body invocations overlapped in time (exclusivity was exercised)"},
+    {"C48", "native", genC48n, runC48, vf::kBatch, 20000, 1000000, "observed concurrency >= 2, or maxThreads <= 1"},
+    {"C48", "fe-native", genC48fen, runC48fe, vf::kBatch, 15000, 600000, "for_each: observed concurrency >= 2, or maxThreads <= 1"},
+    {"C15", "native", genC15n, runC15, vf::kBatch, 30000, 2000000, "n>=2 with >=2 chunks on >=2 threads, or zero-thread pool, or maxThreads in {0,1}"},
     {"C16", "native", genC16n, runC16, vf::kBatch, 10000, 500000, "recursion depth >= 3 and >=2 executing threads"},
 };
 #endif
